@@ -6,6 +6,7 @@ from ..index import unparse, iter_own_nodes, AnalysisError
 from ..cfg import calls_in_node, handler_catches_base
 from ..framework import stores_to_name, assigned_values
 from . import common
+from .. import exprs as X
 
 EXPLANATION = (
     "Who-may-resume and value-provenance rules on eliot_friendly_generator_function.wrapper: copy_context() "
@@ -313,6 +314,33 @@ def rule_meta(chk):
     chk.req(any(d == "wraps(%s)" % dec.params[0] for d in decs), "C15.meta", "wrapper:functools.wraps(original)", chk.where(w),
             good="metadata copied with wraps(original)", fail="the wrapper is not decorated with wraps(%s): %s" % (dec.params[0], decs))
     rets = [n for n in iter_own_nodes(dec.node) if isinstance(n, ast.Return)]
+    oparam_ = dec.params[0]
+    early = [r for r in rets if isinstance(r.value, ast.Name) and r.value.id == oparam_]
+    if early:
+        # idempotence: `original` handed back unchanged when it already IS a wrapper made here.  That is only known for a marker whose value
+        # is the wrapper itself (checked by identity); functools.wraps copies __dict__, so a plain flag is inherited by every other
+        # decorator's wrapper around a friendly function -- which is then returned UNWRAPPED although its own body runs in the driver's context
+        dcfg = ctx.cfg(dec)
+        for r in early:
+            rn = [n for n in dcfg.live if n.ast is r]
+            facts = [(e_, truth) for t, lab in (dcfg.guards_of(rn[0]) if rn else []) if t.kind == "test" for e_, truth in X.atomic_facts(t.exprs[0], lab)]
+            marker, ident = None, False
+            for e_, truth in facts:
+                g_ = e_.left if isinstance(e_, ast.Compare) and len(e_.ops) == 1 and isinstance(e_.ops[0], ast.Is) and truth else (e_ if truth else None)
+                if isinstance(g_, ast.Call) and isinstance(g_.func, ast.Name) and g_.func.id == "getattr" and len(g_.args) >= 2 and isinstance(g_.args[0], ast.Name) and g_.args[0].id == oparam_ \
+                        and isinstance(g_.args[1], ast.Constant):
+                    marker = g_.args[1].value
+                    ident = isinstance(e_, ast.Compare) and isinstance(e_.comparators[0], ast.Name) and e_.comparators[0].id == oparam_
+            sets_ = [x for x in iter_own_nodes(dec.node) if isinstance(x, ast.Assign) and any(isinstance(t_, ast.Attribute) and isinstance(t_.value, ast.Name) and t_.value.id == w.name
+                                                                                              and t_.attr == marker for t_ in x.targets)]
+            self_marked = bool(sets_) and all(isinstance(x.value, ast.Name) and x.value.id == w.name for x in sets_)
+            if marker is None:
+                raise AnalysisError("eliot_friendly_generator_function returns its argument unchanged under a condition the rule does not model")
+            chk.req(ident and self_marked, "C15.meta", "decorator:returns-its-argument-only-for-its-own-wrappers", chk.where(dec, r.lineno),
+                    good="`%s` is returned unchanged only when its %s attribute IS that very function (set to the wrapper itself)" % (oparam_, marker),
+                    fail="the decorator returns `%s` unchanged whenever its attribute %r is truthy: functools.wraps copies __dict__, so a third-party decorator's wrapper around a friendly "
+                         "function inherits the flag and is handed back UNWRAPPED -- its own body (e.g. an action held across `yield from`) then runs in the driver's context" % (oparam_, marker))
+        rets = [r for r in rets if r not in early]
     chk.req(len(rets) == 1 and isinstance(rets[0].value, ast.Name) and rets[0].value.id == w.name, "C15.meta", "decorator:returns-the-wrapper", chk.where(dec),
             good="returns wrapper", fail="the decorator does not return its wrapper")
     tw = ctx.func("twisted", "inline_callbacks")
